@@ -206,10 +206,8 @@ def processLinearMoves (cfg : Config) (s : FState α) (cmd : Cmd α)
 
 def arcLoop := @ERP.arcLoop
 
-def planArc (p : Position α) (endX endY i j : α) (clockwise : Bool) : List (α × α) :=
-  let x := n2l p.x
-  let y := n2l p.y
-  let radius : α := MathOps.hypot i j
+/-- the signed angular travel `planArc` computes -/
+def angularTravel (x y endX endY i j : α) (clockwise : Bool) : α :=
   let centerX := x + i
   let centerY := y + j
   let rtX := endX - centerX
@@ -217,12 +215,20 @@ def planArc (p : Position α) (endX endY i j : α) (clockwise : Bool) : List (α
   let at0 : α := MathOps.atan2 (-i * rtY + j * rtX) (-i * rtX - j * rtY)
   let at1 := if at0 < 0 then at0 + MathOps.twoPi else at0
   let at2 := if clockwise then at1 - MathOps.twoPi else at1
-  let angularTravel := if at2 == 0 && x == endX && y == endY then MathOps.twoPi else at2
-  let arcLength := pyAbs angularTravel * radius
-  let numSegments := max 1 (MathOps.ceilNat (arcLength / (1 : α)))
-  let angle : α := MathOps.atan2 (-j) (-i)
-  let inc := angularTravel / MathOps.ofNat numSegments
-  ERP.arcLoop centerX centerY radius inc (numSegments - 1) angle [] ++ [(endX, endY)]
+  if at2 == 0 && x == endX && y == endY then MathOps.twoPi else at2
+
+/-- number of segments -/
+def numSegments (travel radius : α) : Nat :=
+  max 1 (MathOps.ceilNat (pyAbs travel * radius / (1 : α)))
+
+def planArc (p : Position α) (endX endY i j : α) (clockwise : Bool) : List (α × α) :=
+  let x := n2l p.x
+  let y := n2l p.y
+  let radius : α := MathOps.hypot i j
+  let travel := angularTravel x y endX endY i j clockwise
+  let n := numSegments travel radius
+  ERP.arcLoop (x + i) (y + j) radius (travel / MathOps.ofNat n) (n - 1) (MathOps.atan2 (-j) (-i)) [] ++
+    [(endX, endY)]
 
 def computeArcCenterOffsets (p : Position α) (endX endY radius : α) (clockwise : Bool) : α × α :=
   let p1 := n2l p.x
